@@ -47,6 +47,26 @@ pub fn h_dec_derived<T: Decode + Spec + DerivedInfo, const L: usize>() {
 	core::mem::forget((r, m));
 }
 
+/// derived types behind the in-place decode path (`Box<T>` and `[T; N]` decode through `decode_into`): skipped fields must
+/// still come out as their defaults (agreement with the model is the plain h_dec::<Box<T>> harness)
+pub fn h_dec_derived_inplace<T: Decode + Spec + DerivedInfo, const L: usize>() {
+	let bytes: [u8; L] = kani::any();
+	let len: usize = kani::any();
+	kani::assume(len <= L);
+	let mut inp = &bytes[..len];
+	let r = alloc::boxed::Box::<T>::decode(&mut inp);
+	if let Ok(v) = &r {
+		assert!(v.skipped_fields_default(), "in-place decode left a #[codec(skip)] field without its Default value");
+	}
+	kani::cover!(r.is_ok(), "reach: accepted");
+	let mut inp2 = &bytes[..len];
+	let r2 = <[T; 2]>::decode(&mut inp2);
+	if let Ok(a) = &r2 {
+		assert!(a[0].skipped_fields_default() && a[1].skipped_fields_default(), "array decode left a #[codec(skip)] field without its Default value");
+	}
+	core::mem::forget((r, r2));
+}
+
 /// C13 on a derived type
 pub fn h_max_derived<T: Encode + MaxEncodedLen + Sym, const N: usize>() {
 	let v = T::sym(2);
